@@ -688,7 +688,21 @@ impl RCase {
         let op = format!("retirecell {}", cell);
         let c = self.cells[cell];
         match catch(|| c.retire()) {
-            Ok(()) => { self.cell_retired[cell] = true; sink.branch("retirecell"); let t = self.tail(sink); sink.line(&op, &format!("ok {}", t)); }
+            Ok(()) => {
+                self.cell_retired[cell] = true;
+                sink.branch("retirecell");
+                let t = self.tail(sink);
+                // a retired path gives back every id it was ever handed
+                for (nm, owner) in &self.id_cell {
+                    if *owner != cell { continue; }
+                    if let Some((s, _)) = self.received.iter().find(|(_, n)| *n == nm) {
+                        if !self.conflict && !self.retired.contains(s) {
+                            sink.monitor_fail("cell_retire_leaves_id", &format!("cell {} retired but RETIRE_CONNECTION_ID {} was never sent", cell, s));
+                        }
+                    }
+                }
+                sink.line(&op, &format!("ok {}", t));
+            }
             Err(_) => { self.dead = true; sink.line(&op, "PANIC"); sink.monitor_fail("panic:remote:retirecell", "retire panicked"); }
         }
     }
